@@ -7,6 +7,9 @@
 //   print <hex file> <line> <hex text>         UtestShell::print(text, file, line)
 //   fail  <hex file> <line> <hex message>      addFailure(TestFailure(..)), the test goes on
 //   failx <hex file> <line> <hex message>      UtestShell::fail(..): counts a check, leaves the test
+//   failmsg <hex message>                      addFailure(TestFailure(cur, message)): the constructor without a location
+//   failloc <hex file> <line>                  addFailure(TestFailure(cur, file, line)): the constructor without a message
+//   postfail <hex message>                     a TestPlugin's postTestAction does result.addFailure(TestFailure(&test, message))
 //   checks <n>                                 countCheck() n times
 //   tick <ms>                                  the stubbed millisecond clock advances
 //   run
@@ -22,6 +25,7 @@
 #include "CppUTest/TestResult.h"
 #include "CppUTest/TestFilter.h"
 #include "CppUTest/TestFailure.h"
+#include "CppUTest/TestPlugin.h"
 #include "CppUTest/PlatformSpecificFunctions.h"
 
 namespace vo {
@@ -31,7 +35,7 @@ static unsigned long fake_millis() { return g_clock; }
 static const char* fake_time_string() { return "2001-02-03T04:05:06"; }
 
 struct Action {
-    enum Kind { PRINT, FAIL, FAILX, CHECKS, TICK } kind;
+    enum Kind { PRINT, FAIL, FAILX, FAILMSG, FAILLOC, POSTFAIL, CHECKS, TICK } kind;
     std::string file, text;
     size_t line, n;
 };
@@ -51,6 +55,9 @@ inline void run_actions(const std::vector<Action>& acts) {
         case Action::PRINT: cur->print(a.text.c_str(), a.file.c_str(), a.line); break;
         case Action::FAIL: cur->addFailure(TestFailure(cur, a.file.c_str(), a.line, SimpleString(a.text.c_str()))); break;
         case Action::FAILX: cur->fail(a.text.c_str(), a.file.c_str(), a.line); break;   // does not return
+        case Action::FAILMSG: cur->addFailure(TestFailure(cur, SimpleString(a.text.c_str()))); break;
+        case Action::FAILLOC: cur->addFailure(TestFailure(cur, a.file.c_str(), a.line)); break;
+        case Action::POSTFAIL: break;      // belongs to the plugin
         case Action::CHECKS: for (size_t k = 0; k < a.n; k++) cur->countCheck(); break;
         case Action::TICK: g_clock += a.n; break;
         }
@@ -79,6 +86,21 @@ public:
     Utest* createTest() CPPUTEST_OVERRIDE { return new ScriptedUtest(s_); }
 private:
     const Script* s_;
+};
+
+// a plugin whose post-test action reports the script's `postfail` failures, the way the leak plugin or a
+// user plugin does: result.addFailure(TestFailure(&test, message))
+class ScriptedPlugin : public TestPlugin {
+public:
+    ScriptedPlugin() : TestPlugin("scripted") {}
+    std::map<UtestShell*, const Script*> scripts;
+    void postTestAction(UtestShell& test, TestResult& result) CPPUTEST_OVERRIDE {
+        std::map<UtestShell*, const Script*>::iterator it = scripts.find(&test);
+        if (it == scripts.end()) return;
+        const std::vector<Action>& acts = it->second->acts;
+        for (size_t i = 0; i < acts.size(); i++)
+            if (acts[i].kind == Action::POSTFAIL) result.addFailure(TestFailure(&test, SimpleString(acts[i].text.c_str())));
+    }
 };
 
 struct Registry {
@@ -123,6 +145,16 @@ inline bool apply_op(Registry& r, const vh::Words& w) {
         a.file = vh::unhex(w[1]); a.line = (size_t) vh::to_u64(w[2]); a.text = vh::unhex(w[3]); a.n = 0;
         r.scripts.back().acts.push_back(a); return true;
     }
+    if ((w[0] == "failmsg" || w[0] == "postfail") && w.size() == 2 && is_hex(w[1])) {
+        if (r.scripts.empty()) return true;
+        Action a; a.kind = w[0] == "failmsg" ? Action::FAILMSG : Action::POSTFAIL; a.line = 0; a.n = 0; a.text = vh::unhex(w[1]);
+        r.scripts.back().acts.push_back(a); return true;
+    }
+    if (w[0] == "failloc" && w.size() == 3 && is_hex(w[1]) && is_number(w[2])) {
+        if (r.scripts.empty()) return true;
+        Action a; a.kind = Action::FAILLOC; a.file = vh::unhex(w[1]); a.line = (size_t) vh::to_u64(w[2]); a.n = 0;
+        r.scripts.back().acts.push_back(a); return true;
+    }
     if ((w[0] == "checks" || w[0] == "tick") && w.size() == 2 && is_number(w[1])) {
         if (r.scripts.empty()) return true;
         Action a; a.kind = w[0] == "checks" ? Action::CHECKS : Action::TICK; a.line = 0; a.n = (size_t) vh::to_u64(w[1]);
@@ -144,6 +176,9 @@ inline void run_registry(const Registry& r, TestOutput& out) {
     }
     TestRegistry reg;
     for (size_t i = shells.size(); i > 0; i--) reg.addTest(shells[i - 1]);     // addTest prepends
+    ScriptedPlugin plugin;
+    for (size_t i = 0; i < shells.size(); i++) plugin.scripts[shells[i]] = &r.scripts[i];
+    reg.installPlugin(&plugin);
     TestFilter filter(r.filter.c_str());
     if (r.strict) filter.strictMatching();
     if (r.invert) filter.invertMatching();
